@@ -86,7 +86,7 @@ def generate(rng, tier):
     m = Model()
     base = "c"
     feats = set(rng.subset(["modrs", "path", "inline", "cfg_if", "cfg_match", "cfg_attr_path", "decoys", "skipmod",
-                            "innerskip", "ignore", "generated", "twice", "stemdir", "adversarial", "symlinkmod", "symlinkdir", "fallbacksib", "skiptwice", "ignoredotdot"], 45))
+                            "innerskip", "ignore", "generated", "twice", "stemdir", "adversarial", "symlinkmod", "symlinkdir", "fallbacksib", "skiptwice", "ignoredotdot", "twiceowner", "altskipped"], 45))
     lane = rng.choice(["normal"] * 7 + ["skip_children", "stdin", "fault"])
     if lane == "fault":
         feats.discard("adversarial")  # a decoy at the fallback location would make a missing module resolvable
@@ -337,6 +337,36 @@ def generate(rng, tier):
                     m.why[os.path.join(rd, f)] = "inner skip attribute"
             m.files[root] = insert_decls(m.files[root], decl)
             m.feats.add("skiptwice")
+    # a file with a child, reached twice under different directory ownership: as `mod tw_x;` its child lives in
+    # tw_x/, as `#[path = "tw_x.rs"] mod tw_y;` next to it -- the language reads both
+    if "twiceowner" in feats and "stemdir" not in feats and root_status == "E" and lane == "normal":
+        rd = os.path.dirname(root)
+        if not any(p.startswith(os.path.join(rd, "tw_")) for p in m.files):
+            m.files[os.path.join(rd, "tw_x.rs")] = "mod tw_child;\n" + body()
+            m.files[os.path.join(rd, "tw_x", "tw_child.rs")] = body()
+            m.files[os.path.join(rd, "tw_child.rs")] = body()
+            order = rng.chance(50)
+            d1, d2 = "mod tw_x;\n", '#[path = "tw_x.rs"]\nmod tw_y;\n'
+            m.files[root] = insert_decls(m.files[root], (d1 + d2) if order else (d2 + d1))
+            m.status[os.path.join(rd, "tw_x.rs")] = "E"
+            for f in (os.path.join(rd, "tw_x", "tw_child.rs"), os.path.join(rd, "tw_child.rs")):
+                m.status[f] = "E"
+                tags[f] = "second-reach-other-ownership"
+            m.feats.add("twiceowner")
+    # a declaration whose only existing files are cfg_attr(path) candidates that opt out: a crate the compiler accepts;
+    # there is nothing to format for it, and nothing missing either
+    if "altskipped" in feats and "stemdir" not in feats and root_status == "E" and lane == "normal":
+        rd = os.path.dirname(root)
+        if not any(p.startswith(os.path.join(rd, "as_")) for p in m.files):
+            for nm in ("as_unix.rs", "as_win.rs"):
+                m.files[os.path.join(rd, nm)] = "#![cfg_attr(rustfmt, rustfmt::skip)]\nfn  hand_aligned( ) { }\n"
+                m.status[os.path.join(rd, nm)] = "X"
+                m.why[os.path.join(rd, nm)] = "inner skip attribute"
+            m.files[root] = insert_decls(m.files[root], '#[cfg_attr(unix, path = "as_unix.rs")]\n#[cfg_attr(windows, path = "as_win.rs")]\nmod as_imp;\n')
+            m.feats.add("altskipped")
+            for f in list(m.status):
+                if m.status[f] == "E":
+                    tags[f] = "all-candidates-opt-out"
     # a file reached twice (same spelling / different spelling)
     twice = None
     if "twice" in feats and leafs and root_status == "E":
